@@ -210,7 +210,7 @@ map_vs_attrs!(c04_mania_map_vs_attrs, crate::mania::difficulty::difficulty, stub
 
 /// Every conversion of attributes into a builder yields the same attribute-backed builder.
 #[kani::proof]
-#[kani::unwind(4)]
+#[kani::unwind(6)]
 pub fn c04_into_performance_conversions() {
     any_ghost();
     let which: u8 = kani::any();
